@@ -70,7 +70,8 @@ HEADER_ALTS = {
     'Content-Encoding': ['gzip', 'identity', 'IDENTITY', '', 'deflate'],
     'Content-Language': ['en'],
     'Content-Length': [None, '0', 'SHORT', 'LONG', '-1', 'abc', '1e3', ' 5', '1000000000', '1000000000000', '9223372036854775807',
-                       '9223372036854775808', '1' + '0' * 30, '', '+5', '0x10',
+                       '9223372036854775808', '1' + '0' * 30, '9' * 5000, '\xb2', '1\xb2', '\xb97', '1_0',
+                       '', '+5', '0x10',
                        '5, 5', 'DUP'],
     'CIMExport': [None, 'MethodResponse', '', 'bogus'],
     'CIMExportMethod': [None, 'Other', ''],
